@@ -688,4 +688,429 @@ theorem outline_kids_reach (law : ReadsNumerals rd) : ∀ (ks : List OItem) (s :
       · exact Or.inr (by rw [List.flatMap_cons]; exact List.mem_append_right _ h)
 end
 
+section
+variable {rd : Str → Option Nat}
+
+/-! ### body items -/
+
+def libSkips : Ev → Bool
+  | .error => false
+  | .close n => n != sLib
+  | _ => true
+
+def NShaped : NItem → Prop
+  | .text none => False
+  | _ => True
+
+def IShaped : Item → Prop
+  | .elem e => NodupAttrs e.attrs ∧ (if e.name = sNote then e.selfClosed = false else e.selfClosed = true)
+  | .outline _ _ kids => ∀ k, k ∈ kids → OShaped k
+  | .lib _ _ inner => ∀ e, e ∈ inner → libSkips e = true
+  | .note _ kids => ∀ k, k ∈ kids → NShaped k
+  | .comment => True
+
+/-- `public.objectLibs`, if present, is a dictionary of dictionaries -/
+def LibOK (l : Dict) : Prop := ∀ v, dictGet objectLibsKey l = some v → ∃ ol, v = PV.dict ol ∧ AllDicts ol
+
+structure BodyStep (s s' : PS) (ids : List Str) (nm : Option Str) : Prop where
+  mode : s'.mode = .body
+  ver : s'.ver = s.ver
+  seen : ∀ i, i ∈ s'.seen → i ∈ s.seen ∨ i ∈ ids
+  adv : s'.seenAdvance = true → s.seenAdvance = true ∨ nm = some sAdvance
+  outline : s'.seenOutline = true → s.seenOutline = true ∨ nm = some sOutline
+  lib : s'.seenLib = true → s.seenLib = true ∨ nm = some sLib
+  note : s'.g.note.isSome = true → s.g.note.isSome = true ∨ nm = some sNote
+  image : s'.g.image.isSome = true → s.g.image.isSome = true ∨ nm = some sImage
+
+theorem containerAttrs_nil {a : Option (List Attr)} (h : containerAttrs a = []) : a = some [] := by
+  cases a with
+  | none => simp [containerAttrs] at h
+  | some as => cases as with
+    | nil => rfl
+    | cons _ _ => simp [containerAttrs] at h
+
+theorem lib_skip_reach {v : LibV} : ∀ (inner : List Ev) (s : PS), s.mode = .lib v →
+    (∀ e, e ∈ inner → libSkips e = true) → Reach rd s inner s := by
+  intro inner
+  induction inner with
+  | nil => intro s _ _; exact Reach.nil s
+  | cons e r ih =>
+    intro s hm h
+    have he := h e List.mem_cons_self
+    have h1 : step rd s e = .ok (.inl s) := by
+      cases e <;> simp only [libSkips] at he <;> first | (simp [step, hm, stepLib, cont]; done) | skip
+      · cases he
+      · rename_i n
+        have hn : n ≠ sLib := by simpa using he
+        simp [step, hm, stepLib, hn, cont]
+    exact Reach.cons h1 (ih s hm (fun x hx => h x (List.mem_cons_of_mem _ hx)))
+
+theorem note_kids_reach : ∀ (kids : List NItem) (s : PS), s.mode = .note → (∀ k, k ∈ kids → NShaped k) →
+    ∃ nt, Reach rd s (kids.flatMap NItem.evs) { s with g := { s.g with note := nt } } := by
+  intro kids
+  induction kids with
+  | nil => intro s _ _; exact ⟨s.g.note, (Reach.nil s).cast (by cases s with | mk g _ _ _ _ _ _ => cases g; rfl)⟩
+  | cons k r ih =>
+    intro s hm h
+    have hk := h k List.mem_cons_self
+    cases k with
+    | comment =>
+      have h1 : step rd s .comment = .ok (.inl s) := by simp [step, hm, stepNote, cont]
+      obtain ⟨nt, hr⟩ := ih s hm (fun x hx => h x (List.mem_cons_of_mem _ hx))
+      exact ⟨nt, by simpa [List.flatMap_cons, NItem.evs] using Reach.cons h1 hr⟩
+    | cdata =>
+      have h1 : step rd s .cdata = .ok (.inl s) := by simp [step, hm, stepNote, cont]
+      obtain ⟨nt, hr⟩ := ih s hm (fun x hx => h x (List.mem_cons_of_mem _ hx))
+      exact ⟨nt, by simpa [List.flatMap_cons, NItem.evs] using Reach.cons h1 hr⟩
+    | text t =>
+      cases t with
+      | none => exact absurd hk (by simp [NShaped])
+      | some t =>
+        have h1 : step rd s (.text (some t)) = .ok (.inl { s with g := { s.g with note := some t } }) := by
+          simp [step, hm, stepNote, cont]
+        obtain ⟨nt, hr⟩ := ih { s with g := { s.g with note := some t } } hm (fun x hx => h x (List.mem_cons_of_mem _ hx))
+        exact ⟨nt, by simpa [List.flatMap_cons, NItem.evs] using Reach.cons h1 hr⟩
+
+theorem bodyStep_same (s : PS) (hm : s.mode = .body) (ids : List Str) (nm : Option Str) : BodyStep s s ids nm :=
+  ⟨hm, rfl, fun i hi => Or.inl hi, Or.inl, Or.inl, Or.inl, Or.inl, Or.inl⟩
+
+/-- one body item of a `judge`-clean document, from any state that fits -/
+theorem item_reach (law : ReadsNumerals rd) {s : PS} (hm : s.mode = .body) (it : Item)
+    (hclean : itemCheck rd s.ver it = ([], false)) (hsh : IShaped it)
+    (hnd : (itemIdents it).Nodup) (hfr : ∀ i, i ∈ itemIdents it → i ∉ s.seen)
+    (hadv : itemName it = some sAdvance → s.seenAdvance = false)
+    (hout : itemName it = some sOutline → s.seenOutline = false)
+    (hlib : itemName it = some sLib → s.seenLib = false)
+    (hnote : itemName it = some sNote → s.g.note = none)
+    (himg : itemName it = some sImage → s.g.image = none)
+    (hl : LibOK s.g.lib) (hlnew : ∀ a d inner, it = .lib a (.dict d) inner → LibOK d) :
+    ∃ s', Reach rd s (Item.evs it) s' ∧ BodyStep s s' (itemIdents it) (itemName it) ∧ LibOK s'.g.lib := by
+  cases it with
+  | comment =>
+    have h1 : step rd s .comment = .ok (.inl s) := by simp [step, hm, stepBody, cont]
+    exact ⟨s, Reach.one h1, bodyStep_same s hm _ _, hl⟩
+  | note a kids =>
+    simp only [itemCheck] at hclean
+    have hmc := merge_clean hclean
+    have ha := containerAttrs_nil (by simpa using hmc _ List.mem_cons_self : containerAttrs a = [])
+    have hv : s.ver ≠ 1 := by
+      intro e
+      have := hmc _ (List.mem_cons_of_mem _ List.mem_cons_self)
+      simp [e] at this
+    have hn := hnote rfl
+    have h1 : step rd s (.start sNote a) = .ok (.inl { s with mode := .note }) := by
+      simp +decide [step, hm, stepBody, bodyStart, hv, hn, cont]
+    obtain ⟨nt, hr⟩ := note_kids_reach (rd := rd) kids { s with mode := .note } rfl hsh
+    have h3 : step rd { s with mode := .note, g := { s.g with note := nt } } (.close sNote) =
+        .ok (.inl { s with mode := .body, g := { s.g with note := nt } }) := by
+      simp [step, stepNote, cont]
+    refine ⟨{ s with mode := .body, g := { s.g with note := nt } }, ?_, ?_, hl⟩
+    · simp only [Item.evs]
+      exact Reach.cons h1 (Reach.append hr (Reach.one h3))
+    · exact ⟨rfl, rfl, fun i hi => Or.inl hi, Or.inl, Or.inl, Or.inl, fun _ => Or.inr rfl, Or.inl⟩
+  | lib a v inner =>
+    simp only [itemCheck] at hclean
+    have hmc := merge_clean hclean
+    have ha := containerAttrs_nil (by simpa using hmc _ List.mem_cons_self : containerAttrs a = [])
+    have hv := hmc _ (List.mem_cons_of_mem _ List.mem_cons_self)
+    cases v with
+    | bad => simp at hv
+    | notDict => simp at hv
+    | dict d =>
+      have hs := hlib rfl
+      have h1 : step rd s (.startLib a (.dict d)) = .ok (.inl { s with seenLib := true, mode := .lib (.dict d) }) := by
+        simp [step, hm, stepBody, hs, cont]
+      have hr := lib_skip_reach (rd := rd) inner { s with seenLib := true, mode := .lib (.dict d) } rfl hsh
+      have h3 : step rd { s with seenLib := true, mode := .lib (.dict d) } (.close sLib) =
+          .ok (.inl { s with seenLib := true, mode := .body, g := { s.g with lib := d } }) := by
+        simp [step, stepLib, cont]
+      refine ⟨{ s with seenLib := true, mode := .body, g := { s.g with lib := d } }, ?_, ?_, hlnew a d inner rfl⟩
+      · simp only [Item.evs]
+        exact Reach.cons h1 (Reach.append hr (Reach.one h3))
+      · exact ⟨rfl, rfl, fun i hi => Or.inl hi, Or.inl, Or.inl, fun _ => Or.inr rfl, Or.inl, Or.inl⟩
+  | outline a sc kids =>
+    simp only [itemCheck] at hclean
+    have hmc := merge_clean hclean
+    have ha := containerAttrs_nil (by simpa using hmc _ List.mem_cons_self : containerAttrs a = [])
+    have hso := hout rfl
+    cases sc with
+    | true =>
+      have h1 : step rd s (.empty sOutline a) = .ok (.inl { s with seenOutline := true }) := by
+        simp [step, hm, stepBody, bodyEmpty, hso, cont]
+      refine ⟨{ s with seenOutline := true }, by simpa [Item.evs] using Reach.one h1, ?_, hl⟩
+      exact ⟨hm, rfl, fun i hi => Or.inl hi, Or.inl, fun _ => Or.inr rfl, Or.inl, Or.inl, Or.inl⟩
+    | false =>
+      have h1 : step rd s (.start sOutline a) = .ok (.inl { s with seenOutline := true, mode := .outline {} }) := by
+        simp [step, hm, stepBody, bodyStart, hso, cont]
+      obtain ⟨sn, ob', hr, hb⟩ := outline_kids_reach law kids { s with seenOutline := true, mode := .outline {} } {} rfl hsh
+        (fun k hk => hmc _ (List.mem_cons_of_mem _ (List.mem_map.2 ⟨k, hk, rfl⟩))) hnd hfr
+      have h3 : step rd { s with seenOutline := true, seen := sn, mode := .outline ob' } (.close sOutline) =
+          .ok (.inl (finishOutline { s with seenOutline := true, seen := sn, mode := .outline ob' } ob')) := by
+        simp [step, stepOutline, cont]
+      refine ⟨finishOutline { s with seenOutline := true, seen := sn, mode := .outline ob' } ob', ?_, ?_, ?_⟩
+      · simp only [Item.evs]
+        exact Reach.cons h1 (Reach.append hr (Reach.one h3))
+      · unfold finishOutline
+        split
+        · cases upgradeV1 ob'.contours
+          exact ⟨rfl, rfl, hb, Or.inl, fun _ => Or.inr rfl, Or.inl, Or.inl, Or.inl⟩
+        · exact ⟨rfl, rfl, hb, Or.inl, fun _ => Or.inr rfl, Or.inl, Or.inl, Or.inl⟩
+      · unfold finishOutline
+        split
+        · cases upgradeV1 ob'.contours; exact hl
+        · exact hl
+  | elem e =>
+    obtain ⟨hndA, hsc⟩ := hsh
+    simp only [itemCheck] at hclean
+    by_cases hb : bodyNames.contains e.name = true
+    · simp only [hb, if_true] at hclean
+      have hne : e.name ≠ sNote := by
+        intro h; rw [h] at hb; exact absurd hb (by decide)
+      simp only [hne, if_false] at hsc
+      obtain ⟨tbl, as, hc⟩ := elemCheck_clean hclean
+      have hnda := hndA as hc.attrs
+      have hevs : Item.evs (.elem e) = [.empty e.name (some as)] := by simp [Item.evs, Elem.evs, hsc, hc.attrs]
+      simp only [bodyNames, List.contains_cons, List.contains_nil, Bool.or_false, Bool.or_eq_true, beq_iff_eq] at hb
+      rcases hb with hn | hn | hn | hn | hn
+      · -- advance
+        obtain ⟨⟨w, h⟩, hp⟩ := advance_clean_accepted law hc hn
+        have hs := hadv (by simp [itemName, hn])
+        have h1 : step rd s (.empty e.name (some as)) = .ok (.inl
+            { s with seenAdvance := true, g := { s.g with width := w, height := h } }) := by
+          rw [hn]; simp +decide [step, hm, stepBody, bodyEmpty, hs, hp, cont]
+        refine ⟨{ s with seenAdvance := true, g := { s.g with width := w, height := h } }, by rw [hevs]; exact Reach.one h1, ?_, hl⟩
+        exact ⟨hm, rfl, fun i hi => Or.inl hi, fun _ => Or.inr (by simp [itemName, hn]), Or.inl, Or.inl, Or.inl, Or.inl⟩
+      · -- unicode
+        obtain ⟨cps, hp⟩ := unicode_clean_accepted hc hn s.g.codepoints
+        have h1 : step rd s (.empty e.name (some as)) = .ok (.inl { s with g := { s.g with codepoints := cps } }) := by
+          rw [hn]; simp +decide [step, hm, stepBody, bodyEmpty, hp, cont]
+        refine ⟨{ s with g := { s.g with codepoints := cps } }, by rw [hevs]; exact Reach.one h1, ?_, hl⟩
+        exact ⟨hm, rfl, fun i hi => Or.inl hi, Or.inl, Or.inl, Or.inl, Or.inl, Or.inl⟩
+      · -- anchor
+        have hids : itemIdents (.elem e) = (Spec.get as "identifier").toList := by
+          simp [itemIdents, hn, elemIdent_eq hc.attrs]
+        obtain ⟨x, hp, hxid⟩ := anchor_clean_accepted law hc hn (ident_fresh_of_get hnda (fun i hi =>
+          hfr i (by rw [hids, hi]; simp)))
+        have hv : s.ver ≠ 1 := fun h => hc.v1 ⟨h, Or.inl hn⟩
+        have h1 : step rd s (.empty e.name (some as)) = .ok (.inl
+            { s with seen := addSeen s.seen x.ident, g := { s.g with anchors := s.g.anchors ++ [x] } }) := by
+          rw [hn]; simp +decide [step, hm, stepBody, bodyEmpty, hv, hp, cont]
+        refine ⟨{ s with seen := addSeen s.seen x.ident, g := { s.g with anchors := s.g.anchors ++ [x] } }, by rw [hevs]; exact Reach.one h1, ?_, hl⟩
+        refine ⟨hm, rfl, ?_, Or.inl, Or.inl, Or.inl, Or.inl, Or.inl⟩
+        intro i hi
+        cases hx : x.ident with
+        | none => simp [addSeen, hx] at hi; exact Or.inl hi
+        | some j =>
+          simp only [addSeen, hx, List.mem_cons] at hi
+          rcases hi with rfl | hi
+          · exact Or.inr (by rw [hids, get_of_mem_nodup hnda (hxid _ hx)]; simp)
+          · exact Or.inl hi
+      · -- guideline
+        have hids : itemIdents (.elem e) = (Spec.get as "identifier").toList := by
+          simp [itemIdents, hn, elemIdent_eq hc.attrs]
+        obtain ⟨x, hp, hxid⟩ := guideline_clean_accepted law hc hn (ident_fresh_of_get hnda (fun i hi =>
+          hfr i (by rw [hids, hi]; simp)))
+        have hv : s.ver ≠ 1 := fun h => hc.v1 ⟨h, Or.inr (Or.inl hn)⟩
+        have h1 : step rd s (.empty e.name (some as)) = .ok (.inl
+            { s with seen := addSeen s.seen x.ident, g := { s.g with guidelines := s.g.guidelines ++ [x] } }) := by
+          rw [hn]; simp +decide [step, hm, stepBody, bodyEmpty, hv, hp, cont]
+        refine ⟨{ s with seen := addSeen s.seen x.ident, g := { s.g with guidelines := s.g.guidelines ++ [x] } }, by rw [hevs]; exact Reach.one h1, ?_, hl⟩
+        refine ⟨hm, rfl, ?_, Or.inl, Or.inl, Or.inl, Or.inl, Or.inl⟩
+        intro i hi
+        cases hx : x.ident with
+        | none => simp [addSeen, hx] at hi; exact Or.inl hi
+        | some j =>
+          simp only [addSeen, hx, List.mem_cons] at hi
+          rcases hi with rfl | hi
+          · exact Or.inr (by rw [hids, get_of_mem_nodup hnda (hxid _ hx)]; simp)
+          · exact Or.inl hi
+      · -- image
+        obtain ⟨x, hp⟩ := image_clean_accepted law hc hn
+        have hv : s.ver ≠ 1 := fun h => hc.v1 ⟨h, Or.inr (Or.inr hn)⟩
+        have hi := himg (by simp [itemName, hn])
+        have h1 : step rd s (.empty e.name (some as)) = .ok (.inl { s with g := { s.g with image := some x } }) := by
+          rw [hn]; simp +decide [step, hm, stepBody, bodyEmpty, hv, hi, hp, cont]
+        refine ⟨{ s with g := { s.g with image := some x } }, by rw [hevs]; exact Reach.one h1, ?_, hl⟩
+        exact ⟨hm, rfl, fun i hi => Or.inl hi, Or.inl, Or.inl, Or.inl, Or.inl, fun _ => Or.inr (by simp [itemName, hn])⟩
+    · simp only [hb] at hclean
+      by_cases hnn : e.name = sNote
+      · -- an empty note, explicit close
+        simp only [hnn, if_true] at hclean hsc
+        have hmc := merge_clean hclean
+        have ha := containerAttrs_nil (by simpa using hmc _ List.mem_cons_self : containerAttrs e.attrs = [])
+        have hv : s.ver ≠ 1 := by
+          intro h
+          have := hmc _ (List.mem_cons_of_mem _ List.mem_cons_self)
+          simp [h] at this
+        have hn := hnote (by simp [itemName, hnn])
+        have h1 : step rd s (.start sNote (some [])) = .ok (.inl { s with mode := .note }) := by
+          simp +decide [step, hm, stepBody, bodyStart, hv, hn, cont]
+        have h2 : step rd { s with mode := .note } (.close sNote) = .ok (.inl { s with mode := .body }) := by
+          simp [step, stepNote, cont]
+        refine ⟨{ s with mode := .body }, ?_, ?_, hl⟩
+        · simp only [Item.evs, Elem.evs, hsc, hnn, ha]
+          exact Reach.cons h1 (Reach.one h2)
+        · exact ⟨rfl, rfl, fun i hi => Or.inl hi, Or.inl, Or.inl, Or.inl, Or.inl, Or.inl⟩
+      · simp only [hnn, if_false] at hclean
+        by_cases hll : e.name = sLib <;> simp [hll] at hclean
+
+/-! ### a whole body, and the document -/
+
+def cnt (its : List Item) (n : Str) : Nat := (its.filter (fun i => itemName i == some n)).length
+
+theorem cnt_cons (it : Item) (r : List Item) (n : Str) :
+    cnt (it :: r) n = cnt r n + (if itemName it = some n then 1 else 0) := by
+  unfold cnt
+  by_cases h : itemName it = some n
+  · simp [List.filter_cons, h]
+  · have : (itemName it == some n) = false := by
+      cases hb : (itemName it == some n) with
+      | false => rfl
+      | true => exact absurd (by simpa using hb) h
+    simp [List.filter_cons, this, h]
+
+theorem items_reach (law : ReadsNumerals rd) : ∀ (its : List Item) (s : PS), s.mode = .body →
+    (∀ it, it ∈ its → itemCheck rd s.ver it = ([], false)) → (∀ it, it ∈ its → IShaped it) →
+    (its.flatMap itemIdents).Nodup → (∀ i, i ∈ its.flatMap itemIdents → i ∉ s.seen) →
+    (∀ n, cnt its n ≤ 1 ∨ (n ≠ sAdvance ∧ n ≠ sOutline ∧ n ≠ sLib ∧ n ≠ sNote ∧ n ≠ sImage)) →
+    (s.seenAdvance = true → cnt its sAdvance = 0) → (s.seenOutline = true → cnt its sOutline = 0) →
+    (s.seenLib = true → cnt its sLib = 0) → (s.g.note.isSome = true → cnt its sNote = 0) →
+    (s.g.image.isSome = true → cnt its sImage = 0) →
+    LibOK s.g.lib → (∀ a d inner, Item.lib a (.dict d) inner ∈ its → LibOK d) →
+    ∃ s', Reach rd s (its.flatMap Item.evs) s' ∧ s'.mode = .body ∧ LibOK s'.g.lib := by
+  intro its
+  induction its with
+  | nil => intro s hm _ _ _ _ _ _ _ _ _ _ hl _; exact ⟨s, Reach.nil s, hm, hl⟩
+  | cons it r ih =>
+    intro s hm hcl hsh hnd hfr hcnt ha ho hli hn hi hl hlnew
+    rw [List.flatMap_cons] at hnd hfr
+    obtain ⟨n1, n2, n3⟩ := List.nodup_append.1 hnd
+    have once : ∀ n, (n = sAdvance ∨ n = sOutline ∨ n = sLib ∨ n = sNote ∨ n = sImage) → cnt (it :: r) n ≤ 1 := by
+      intro n hn'
+      rcases hcnt n with h | h
+      · exact h
+      · rcases hn' with e | e | e | e | e
+        · exact absurd e h.1
+        · exact absurd e h.2.1
+        · exact absurd e h.2.2.1
+        · exact absurd e h.2.2.2.1
+        · exact absurd e h.2.2.2.2
+    -- a flag that is set excludes the element from the rest, so the head cannot be it
+    have pre : ∀ n, (cnt (it :: r) n = 0) → itemName it ≠ some n := by
+      intro n h0 e
+      rw [cnt_cons, if_pos e] at h0
+      omega
+    have bfalse : ∀ {b : Bool}, (b = true → False) → b = false := by intro b h; cases b <;> simp_all
+    obtain ⟨s1, hr1, hb1, hl1⟩ := item_reach law hm it (hcl it List.mem_cons_self) (hsh it List.mem_cons_self) n1
+      (fun i hi => hfr i (List.mem_append_left _ hi))
+      (fun e => bfalse (fun h => pre _ (ha h) e)) (fun e => bfalse (fun h => pre _ (ho h) e))
+      (fun e => bfalse (fun h => pre _ (hli h) e))
+      (fun e => by
+        cases hgn : s.g.note with
+        | none => rfl
+        | some _ => exact absurd e (pre _ (hn (by simp [hgn]))))
+      (fun e => by
+        cases hgi : s.g.image with
+        | none => rfl
+        | some _ => exact absurd e (pre _ (hi (by simp [hgi]))))
+      hl (fun a d inner e => hlnew a d inner (by rw [e]; exact List.mem_cons_self))
+    -- after the head: what a set flag says about the rest
+    have post : ∀ n, (n = sAdvance ∨ n = sOutline ∨ n = sLib ∨ n = sNote ∨ n = sImage) →
+        (cnt (it :: r) n = 0 ∨ itemName it = some n) → cnt r n = 0 := by
+      intro n hn' h
+      have h1 := once n hn'
+      rw [cnt_cons] at h1
+      rcases h with h | h
+      · rw [cnt_cons] at h; omega
+      · rw [if_pos h] at h1; omega
+    obtain ⟨s2, hr2, hm2, hl2⟩ := ih s1 hb1.mode
+      (fun x hx => by rw [hb1.ver]; exact hcl x (List.mem_cons_of_mem _ hx))
+      (fun x hx => hsh x (List.mem_cons_of_mem _ hx)) n2
+      (by
+        intro i hi hmem
+        rcases hb1.seen i hmem with h | h
+        · exact hfr i (List.mem_append_right _ hi) h
+        · exact n3 i h i hi rfl)
+      (by
+        intro n
+        rcases hcnt n with h | h
+        · left; rw [cnt_cons] at h; omega
+        · right; exact h)
+      (fun h => post _ (Or.inl rfl) ((hb1.adv h).imp ha id))
+      (fun h => post _ (Or.inr (Or.inl rfl)) ((hb1.outline h).imp ho id))
+      (fun h => post _ (Or.inr (Or.inr (Or.inl rfl))) ((hb1.lib h).imp hli id))
+      (fun h => post _ (Or.inr (Or.inr (Or.inr (Or.inl rfl)))) ((hb1.note h).imp hn id))
+      (fun h => post _ (Or.inr (Or.inr (Or.inr (Or.inr rfl)))) ((hb1.image h).imp hi id))
+      hl1 (fun a d inner hx => hlnew a d inner (List.mem_cons_of_mem _ hx))
+    exact ⟨s2, by rw [List.flatMap_cons]; exact Reach.append hr1 hr2, hm2, hl2⟩
+
+/-- what the tokeniser and the shape reader guarantee of a document, and the three spellings the recorded findings
+    exclude (content-free elements self-closing, `note` and `glyph` not self-closed) -/
+structure Shaped (d : Doc) : Prop where
+  prolog : ∀ e, e ∈ d.prolog → isProlog e = true
+  gattrs : NodupAttrs d.gattrs
+  glyphOpen : d.gSelfClosed = false
+  items : ∀ it, it ∈ d.items → IShaped it
+
+theorem libOK_of_objectLibsCheck {d : Doc} (h : objectLibsCheck d = []) :
+    ∀ a l inner, Item.lib a (.dict l) inner ∈ d.items → LibOK l := by
+  intro a l inner hmem v hv
+  have := (List.flatMap_eq_nil_iff.1 h) _ hmem
+  simp only [hv] at this
+  cases v with
+  | dict ol =>
+    refine ⟨ol, rfl, ?_⟩
+    simp at this
+    intro e he
+    obtain ⟨k, v'⟩ := e
+    have h2 := this k v' he
+    cases v' with
+    | dict d' => exact ⟨d', rfl⟩
+    | str _ => simp at h2
+    | atom _ => simp at h2
+    | arr _ => simp at h2
+  | str _ => simp at this
+  | atom _ => simp at this
+  | arr _ => simp at this
+
+/-- **judge_clean_accepted**: a document the specification judges clean (`Spec.judge rd d = ([], false)`: no rule
+    broken, nothing unspecified), of the shape the tokeniser delivers and in the spellings the recorded findings leave
+    (`Shaped`), is accepted by the parser — format 1 and format 2, any element order, any attribute order, comments
+    anywhere.  `ReadsNumerals rd`: Rust's float parser reads every plain decimal numeral. -/
+theorem judge_clean_accepted (law : ReadsNumerals rd) {d : Doc} (hj : judge rd d = ([], false)) (hs : Shaped d) :
+    ∃ g, parseGlif rd (Spec.flatten d) = .ok g := by
+  obtain ⟨ver, hc⟩ := judge_clean hj
+  have hga : ∃ as, d.gattrs = some as := by
+    cases hg : d.gattrs with
+    | none => have := hc.glyph; simp [glyphAttrCheck, hg] at this
+    | some as => exact ⟨as, rfl⟩
+  obtain ⟨as, has⟩ := hga
+  obtain ⟨hv12, name, hparse⟩ := glyph_start_clean hc has (hs.gattrs as has)
+  have hcnt : ∀ n, cnt d.items n ≤ 1 ∨ (n ≠ sAdvance ∧ n ≠ sOutline ∧ n ≠ sLib ∧ n ≠ sNote ∧ n ≠ sImage) := by
+    intro n
+    by_cases h : n = sAdvance ∨ n = sOutline ∨ n = sLib ∨ n = sNote ∨ n = sImage
+    · left
+      rcases h with rfl | rfl | rfl | rfl | rfl
+      · exact hc.once "advance" (by decide)
+      · exact hc.once "outline" (by decide)
+      · exact hc.once "lib" (by decide)
+      · exact hc.once "note" (by decide)
+      · exact hc.once "image" (by decide)
+    · right
+      simp only [not_or] at h
+      exact h
+  obtain ⟨s', hr, hm', hl'⟩ := items_reach law d.items { g := { name := name }, ver := ver } rfl hc.items hs.items
+    hc.idents (by simp) hcnt (by intro h; cases h) (by intro h; cases h) (by intro h; cases h)
+    (by intro h; simp at h) (by intro h; simp at h) (by intro v hv; simp [dictGet] at hv)
+    (libOK_of_objectLibsCheck hc.objlibs)
+  obtain ⟨g, hg⟩ := loadObjectLibs_ok hl'
+  refine ⟨g, ?_⟩
+  unfold parseGlif Spec.flatten
+  simp only [hs.glyphOpen, hc.trailer, List.append_nil, has, Bool.false_eq_true, if_false]
+  rw [scanStart_prolog _ _ hs.prolog]
+  simp only [scanStart, if_true, hparse]
+  rw [run_of_reach rd hr]
+  simp [run, step, hm', stepBody, hg]
+end
+
 end Glif
